@@ -27,18 +27,14 @@ func (n *RaftNode) VerifLeadershipTransferTo(id, raftAddr string) error {
 }
 
 // VerifFSMState returns the in-memory fsm state (last applied raft index, last balloon version).
+// (Unsynchronised on purpose: the hooks must not depend on the node's internal locking, which is
+// part of what is being verified. The harness samples it at quiescent points only.)
 func (n *RaftNode) VerifFSMState() (index, balloonVersion uint64) {
-	n.applyMu.RLock()
-	defer n.applyMu.RUnlock()
 	return n.state.Index, n.state.BalloonVersion
 }
 
 // VerifBalloonVersion returns the balloon's version counter (number of events).
-func (n *RaftNode) VerifBalloonVersion() uint64 {
-	n.applyMu.RLock()
-	defer n.applyMu.RUnlock()
-	return n.balloon.Version()
-}
+func (n *RaftNode) VerifBalloonVersion() uint64 { return n.balloon.Version() }
 
 // VerifRaftStats exposes raft's stats map (applied_index, commit_index, ...).
 func (n *RaftNode) VerifRaftStats() map[string]string { return n.raft.Stats() }
